@@ -1,5 +1,5 @@
 (* Lemmas about the collection model (Collection.v) behind C09 and C10. *)
-From LP Require Import Num Pay Sg1 Consts Collection NumLemmas.
+From LP Require Import Num Pay Sg1 Consts Semver Collection NumLemmas.
 From Coq Require Import ZArith Lia ZifyN ZifyBool.
 Import ListNotations.
 Local Open Scope N_scope.
@@ -1006,6 +1006,349 @@ Proof.
   - destruct Ho as [_ Ho]. exfalso. apply Hne. rewrite Ho. reflexivity.
   - destruct Ho as [Hp Ho]. left. rewrite Ho. auto.
   - destruct Ho as [Hp Ho]. right. rewrite Ho. auto.
+Qed.
+
+(* ================================================================== histories with migrations *)
+(* The deployed contract: calls and admin migrations to the sg721-updatable code. *)
+Lemma migrate_ok nw d d' :
+  migrate_to_updatable nw d = Ok d' ->
+  d_ct d' = Updatable /\ d_name d' = NUpd /\ d_ver d' = CUR_VERSION /\ d_admin d' = d_admin d /\
+  compatible_name (d_name d) = true /\
+  tokens (d_st d') = tokens (d_st d) /\ token_count (d_st d') = token_count (d_st d) /\
+  operators (d_st d') = operators (d_st d) /\ own (d_st d') = own (d_st d) /\
+  info (d_st d') = info (d_st d) /\ frozen (d_st d') = frozen (d_st d) /\
+  (if is_base_name (d_name d)
+   then md_frozen (d_st d') = false /\ md_enabled (d_st d') = false
+   else md_frozen (d_st d') = md_frozen (d_st d) /\ md_enabled (d_st d') = md_enabled (d_st d)) /\
+  (if ver_ltb (d_ver d) (3, 1, 0)
+   then DAY_NS <= nw /\ royalty_updated_at (d_st d') = nw - DAY_NS
+   else royalty_updated_at (d_st d') = royalty_updated_at (d_st d)).
+Proof.
+  unfold migrate_to_updatable. intros H.
+  destruct EARLIEST_VERSION as [v0|]; [|discriminate H].
+  destruct (compatible_name (d_name d)) eqn:En; cbn [negb] in H; [|discriminate H].
+  destruct (ver_ltb (d_ver d) v0); [discriminate H|].
+  destruct (ver_ltb CUR_VERSION (d_ver d)); [discriminate H|].
+  destruct (ver_eqb (d_ver d) CUR_VERSION && cwname_eqb (d_name d) NUpd); [discriminate H|].
+  destruct (ver_ltb (d_ver d) (3, 0, 0)); [discriminate H|].
+  destruct (ver_ltb (d_ver d) (3, 1, 0)) eqn:E31.
+  - destruct (nw <? DAY_NS) eqn:Ed; cbn [bind] in H; [discriminate H|]. apply N.ltb_ge in Ed.
+    inversion H; subst; clear H. cbn [d_ct d_name d_ver d_admin d_st].
+    destruct (is_base_name (d_name d)); cbn; repeat split; auto.
+  - cbn [bind] in H. inversion H; subst; clear H. cbn [d_ct d_name d_ver d_admin d_st].
+    destruct (is_base_name (d_name d)); cbn; repeat split; auto.
+Qed.
+
+Lemma dstep_ok self e a d d' ms :
+  dstep self e a d = Ok (d', ms) ->
+  (exists o s', a = ACall o /\ step (d_ct d) self e o (d_st d) = Ok (s', ms) /\ d' = with_state d s') \/
+  (a = AMigrate /\ ms = [] /\ d_admin d = sender e /\ migrate_to_updatable (now e) d = Ok d').
+Proof.
+  destruct a as [o|]; simpl; intros H.
+  - apply bind_ok in H. destruct H as [[s' ms'] [Hs H]]. inversion H; subst; clear H.
+    left. exists o, s'. auto.
+  - destruct (d_admin d =? sender e) eqn:Ea; [|discriminate]. apply N.eqb_eq in Ea.
+    apply bind_ok in H. destruct H as [d1 [Hm H]]. inversion H; subst; clear H. right. auto.
+Qed.
+
+Lemma dapply_cases self d ea :
+  dapply self d ea = d \/ exists ms, dstep self (fst ea) (snd ea) d = Ok (dapply self d ea, ms).
+Proof.
+  unfold dapply. destruct (dstep self (fst ea) (snd ea) d) as [[d' ms]|]; [right; eauto | left; reflexivity].
+Qed.
+
+Lemma drun_invariant (P : deployed -> Prop) self :
+  (forall e a d d' ms, P d -> dstep self e a d = Ok (d', ms) -> P d') ->
+  forall l d, P d -> P (drun self d l).
+Proof.
+  intros Hstep l. induction l as [|ea l IH]; intros d Hd; simpl; [exact Hd|].
+  apply IH. destruct (dapply_cases self d ea) as [-> | [ms H]]; [exact Hd|].
+  eapply Hstep; eauto.
+Qed.
+
+(* ---- C09 over histories with migrations *)
+Definition d_tokens_ok (d : deployed) : Prop := count_inv (d_st d) /\ keys_unique (d_st d).
+
+Lemma d_tokens_ok_step self e a d d' ms :
+  d_tokens_ok d -> dstep self e a d = Ok (d', ms) -> d_tokens_ok d'.
+Proof.
+  intros [Hc Hk] H. apply dstep_ok in H.
+  destruct H as [(o & s' & _ & Hs & ->) | (_ & _ & _ & Hm)].
+  - split; simpl; [eapply count_inv_step; eauto | eapply keys_unique_step; eauto].
+  - apply migrate_ok in Hm. destruct Hm as (_ & _ & _ & _ & _ & Ht & Hn & _).
+    unfold d_tokens_ok, count_inv, keys_unique in *. rewrite Ht, Hn. auto.
+Qed.
+
+Lemma d_tokens_ok_run self l d :
+  count_inv (d_st d) -> keys_unique (d_st d) ->
+  count_inv (d_st (drun self d l)) /\ keys_unique (d_st (drun self d l)).
+Proof.
+  intros Hc Hk. apply (drun_invariant d_tokens_ok self); [|split; assumption].
+  intros; eapply d_tokens_ok_step; eauto.
+Qed.
+
+(* a migration touches neither tokens, count, operators, ownership, collection info nor the
+   collection-info freeze *)
+Lemma migrate_keeps self e d d' ms :
+  dstep self e AMigrate d = Ok (d', ms) ->
+  d_admin d = sender e /\ d_ct d' = Updatable /\
+  tokens (d_st d') = tokens (d_st d) /\ token_count (d_st d') = token_count (d_st d) /\
+  operators (d_st d') = operators (d_st d) /\ own (d_st d') = own (d_st d) /\
+  info (d_st d') = info (d_st d) /\ frozen (d_st d') = frozen (d_st d).
+Proof.
+  intros H. apply dstep_ok in H. destruct H as [(o & s' & Ha & _) | (_ & _ & Had & Hm)]; [discriminate|].
+  apply migrate_ok in Hm. tauto.
+Qed.
+
+Lemma d_frozen_step self e a d d' ms :
+  frozen (d_st d) = true -> dstep self e a d = Ok (d', ms) ->
+  creator_fields (d_st d') = creator_fields (d_st d) /\ frozen (d_st d') = true.
+Proof.
+  intros Hf H. apply dstep_ok in H.
+  destruct H as [(o & s' & _ & Hs & ->) | (_ & _ & _ & Hm)].
+  - simpl. eapply frozen_step; eauto.
+  - apply migrate_ok in Hm. destruct Hm as (_ & _ & _ & _ & _ & _ & _ & _ & _ & Hi & Hz & _).
+    unfold creator_fields. rewrite Hi, Hz. auto.
+Qed.
+
+Lemma d_frozen_is_final self l : forall d,
+  frozen (d_st d) = true ->
+  creator_fields (d_st (drun self d l)) = creator_fields (d_st d) /\ frozen (d_st (drun self d l)) = true.
+Proof.
+  induction l as [|ea l IH]; intros d Hf; simpl; [auto|].
+  destruct (dapply_cases self d ea) as [-> | [ms H]]; [apply IH; exact Hf|].
+  destruct (d_frozen_step _ _ _ _ _ _ Hf H) as [Hc Hf'].
+  destruct (IH _ Hf') as [Hc' Hf'']. split; [congruence | exact Hf''].
+Qed.
+
+Lemma d_keys_step self e a d d' ms :
+  keys_unique (d_st d) -> dstep self e a d = Ok (d', ms) -> keys_unique (d_st d').
+Proof.
+  intros Hk H. apply dstep_ok in H.
+  destruct H as [(o & s' & _ & Hs & ->) | (_ & _ & _ & Hm)].
+  - simpl. eapply keys_unique_step; eauto.
+  - apply migrate_ok in Hm. destruct Hm as (_ & _ & _ & _ & _ & Ht & _).
+    unfold keys_unique in *. rewrite Ht. exact Hk.
+Qed.
+
+(* the token exists after every transaction of the history *)
+Fixpoint d_alive_through (self : addr) (id : N) (d : deployed) (l : list (env * action)) : Prop :=
+  match l with
+  | [] => True
+  | ea :: r => tfind id (tokens (d_st (dapply self d ea))) <> None /\ d_alive_through self id (dapply self d ea) r
+  end.
+
+Lemma d_token_constant self id (P : deployed -> Prop) (f : token -> N + unit) :
+  (forall e a d d' ms, P d -> dstep self e a d = Ok (d', ms) -> P d') ->
+  (forall e a d d' ms t t', P d -> keys_unique (d_st d) -> dstep self e a d = Ok (d', ms) ->
+      tfind id (tokens (d_st d)) = Some t -> tfind id (tokens (d_st d')) = Some t' -> f t' = f t) ->
+  forall l d t, P d -> keys_unique (d_st d) -> tfind id (tokens (d_st d)) = Some t ->
+    d_alive_through self id d l ->
+    exists t', tfind id (tokens (d_st (drun self d l))) = Some t' /\ f t' = f t.
+Proof.
+  intros HP Hstep l. induction l as [|ea l IH]; intros d t Hp Hu Hf Ha; simpl.
+  - exists t. auto.
+  - destruct Ha as [Hlive Ha].
+    destruct (dapply_cases self d ea) as [Heq | [ms H]].
+    + rewrite Heq in *. eapply IH; eauto.
+    + destruct (tfind id (tokens (d_st (dapply self d ea)))) as [t1|] eqn:E1; [|congruence].
+      assert (Hft : f t1 = f t) by (eapply Hstep; eauto).
+      assert (Hu1 : keys_unique (d_st (dapply self d ea))) by (eapply d_keys_step; eauto).
+      destruct (IH (dapply self d ea) t1) as [t2 [H2 Hf2]]; eauto.
+      exists t2. split; [exact H2 | congruence].
+Qed.
+
+(* once token metadata is frozen on an updatable collection (whose cw2 record is not an
+   sg721-base one: it never is, the migration from sg721-base rewrites the record) no
+   call and no migration changes the URI of a token while it lives; the collection stays
+   updatable and frozen *)
+Definition md_sealed (d : deployed) : Prop :=
+  d_ct d = Updatable /\ is_base_name (d_name d) = false /\ md_frozen (d_st d) = true.
+
+Lemma md_sealed_step self e a d d' ms :
+  md_sealed d -> dstep self e a d = Ok (d', ms) -> md_sealed d'.
+Proof.
+  intros (Hc & Hn & Hf) H. apply dstep_ok in H.
+  destruct H as [(o & s' & _ & Hs & ->) | (_ & _ & _ & Hm)].
+  - unfold md_sealed. simpl. repeat split; auto. eapply md_frozen_step; eauto.
+  - apply migrate_ok in Hm. destruct Hm as (Hc' & Hn' & _ & _ & _ & _ & _ & _ & _ & _ & _ & Hmd & _).
+    rewrite Hn in Hmd. destruct Hmd as [Hmd _].
+    unfold md_sealed. rewrite Hc', Hn', Hmd. auto.
+Qed.
+
+Lemma d_metadata_frozen_final self id l d t :
+  md_sealed d -> keys_unique (d_st d) -> tfind id (tokens (d_st d)) = Some t ->
+  d_alive_through self id d l ->
+  (exists t', tfind id (tokens (d_st (drun self d l))) = Some t' /\ k_uri t' = k_uri t) /\
+  md_sealed (drun self d l).
+Proof.
+  intros Hs Hu Hf Ha. split.
+  - destruct (d_token_constant self id md_sealed uri_tag) with (l := l) (d := d) (t := t)
+      as [t' [H1 H2]]; auto.
+    + intros; eapply md_sealed_step; eauto.
+    + intros e a d0 d1 ms t0 t1 (Hc & Hn & Hm) Hu0 H Hf0 Hf1. apply dstep_ok in H.
+      destruct H as [(o & s' & _ & Hst & ->) | (_ & _ & _ & Hmg)].
+      * simpl in Hf1. rewrite Hc in Hst.
+        destruct (step_token _ _ _ _ _ _ _ _ _ Hu0 Hst Hf0) as [[_ Hn0] | (t2 & H2 & [Huri | (_ & _ & Hm0 & _)] & _)].
+        -- congruence.
+        -- unfold uri_tag. rewrite H2 in Hf1. inversion Hf1; subst. rewrite Huri. reflexivity.
+        -- congruence.
+      * apply migrate_ok in Hmg. destruct Hmg as (_ & _ & _ & _ & _ & Ht & _).
+        rewrite Ht in Hf1. congruence.
+    + exists t'. split; [exact H1 | apply uri_tag_inj; exact H2].
+  - apply (drun_invariant md_sealed self); [|exact Hs]. intros; eapply md_sealed_step; eauto.
+Qed.
+
+(* sg721-nt cannot be migrated to the updatable code (its cw2 name is not accepted), so the
+   owner of a token stays constant between mint and burn over histories with migrate
+   attempts as well *)
+Definition is_nt (d : deployed) : Prop := d_ct d = NT /\ compatible_name (d_name d) = false.
+
+Lemma is_nt_step self e a d d' ms : is_nt d -> dstep self e a d = Ok (d', ms) -> is_nt d'.
+Proof.
+  intros (Hc & Hn) H. apply dstep_ok in H.
+  destruct H as [(o & s' & _ & Hs & ->) | (_ & _ & _ & Hm)].
+  - split; assumption.
+  - apply migrate_ok in Hm. destruct Hm as (_ & _ & _ & _ & Hcn & _). congruence.
+Qed.
+
+Lemma d_nt_owner_constant self id l d t :
+  is_nt d -> keys_unique (d_st d) -> tfind id (tokens (d_st d)) = Some t ->
+  d_alive_through self id d l ->
+  exists t', tfind id (tokens (d_st (drun self d l))) = Some t' /\ k_owner t' = k_owner t.
+Proof.
+  intros Hn Hu Hf Ha.
+  destruct (d_token_constant self id is_nt owner_tag) with (l := l) (d := d) (t := t)
+    as [t' [H1 H2]]; auto.
+  - intros; eapply is_nt_step; eauto.
+  - intros e a d0 d1 ms t0 t1 (Hc & Hcn) Hu0 H Hf0 Hf1. apply dstep_ok in H.
+    destruct H as [(o & s' & _ & Hst & ->) | (_ & _ & _ & Hmg)].
+    + simpl in Hf1. rewrite Hc in Hst.
+      destruct (step_token _ _ _ _ _ _ _ _ _ Hu0 Hst Hf0) as [[_ Hn0] | (t2 & H2 & _ & [Ho | [_ Hx]])].
+      * congruence.
+      * unfold owner_tag. congruence.
+      * congruence.
+    + apply migrate_ok in Hmg. destruct Hmg as (_ & _ & _ & _ & Hcn' & _). congruence.
+  - exists t'. split; [exact H1|]. unfold owner_tag in H2. congruence.
+Qed.
+
+(* ---- C10 over histories with migrations *)
+Lemma d_royalty_step self e a d d' ms :
+  dstep self e a d = Ok (d', ms) ->
+  (exists o, a = ACall o /\ step (d_ct d) self e o (d_st d) = Ok (d_st d', ms)) \/
+  (a = AMigrate /\ ci_royalty (info (d_st d')) = ci_royalty (info (d_st d))).
+Proof.
+  intros H. apply dstep_ok in H.
+  destruct H as [(o & s' & -> & Hs & ->) | (-> & _ & _ & Hm)].
+  - left. exists o. auto.
+  - right. apply migrate_ok in Hm. destruct Hm as (_ & _ & _ & _ & _ & _ & _ & _ & _ & Hi & _).
+    rewrite Hi. auto.
+Qed.
+
+Lemma d_share_ok_run self l d : share_ok (d_st d) -> share_ok (d_st (drun self d l)).
+Proof.
+  apply (drun_invariant (fun d => share_ok (d_st d)) self).
+  intros e a d0 d1 ms Hs H. destruct (d_royalty_step _ _ _ _ _ _ H) as [(o & _ & Hst) | (_ & Hr)].
+  - eapply share_ok_step; eauto.
+  - unfold share_ok in *. rewrite Hr. exact Hs.
+Qed.
+
+Lemma d_raise_bounded self e a d d' ms ro rn :
+  dstep self e a d = Ok (d', ms) ->
+  ci_royalty (info (d_st d)) = Some ro -> ci_royalty (info (d_st d')) = Some rn ->
+  r_share ro < r_share rn ->
+  r_share rn - r_share ro <= MAX_DELTA /\ r_share rn <= MAX_SHARE.
+Proof.
+  intros H Ho Hn Hlt. destruct (d_royalty_step _ _ _ _ _ _ H) as [(o & _ & Hst) | (_ & Hr)].
+  - eapply raise_bounded; eauto.
+  - rewrite Hr, Ho in Hn. inversion Hn; subst. lia.
+Qed.
+
+Lemma d_climb_bounded self l : forall d a,
+  share_of (d_st d) = Some a ->
+  exists b, share_of (d_st (drun self d l)) = Some b /\ b <= N.max a MAX_SHARE.
+Proof.
+  induction l as [|ea l IH]; intros d a Ha; simpl.
+  - exists a. split; [exact Ha | lia].
+  - destruct (dapply_cases self d ea) as [-> | [ms H]]; [apply IH; exact Ha|].
+    assert (Hb : exists b, share_of (d_st (dapply self d ea)) = Some b /\ b <= N.max a MAX_SHARE).
+    { destruct (d_royalty_step _ _ _ _ _ _ H) as [(o & _ & Hst) | (_ & Hr)].
+      - eapply climb_step; eauto.
+      - exists a. unfold share_of in *. rewrite Hr. split; [exact Ha | lia]. }
+    destruct Hb as [b [Hb Hle]]. destruct (IH _ _ Hb) as [c [Hc Hle']].
+    exists c. split; [exact Hc | lia].
+Qed.
+
+(* cadence: a migration re-creates the anchor only for cw2 versions below 3.1.0 (which
+   predate it); a deployment at or above 3.1.0 stays there (a migration records the
+   workspace version), so over its whole future accepted royalty changes are >= 24 h apart *)
+Definition is_royalty_action (a : action) : bool :=
+  match a with ACall o => is_royalty_change o | AMigrate => false end.
+
+Fixpoint d_accepted_changes (self : addr) (d : deployed) (l : list (env * action)) : list N :=
+  match l with
+  | [] => []
+  | ea :: r =>
+      match dstep self (fst ea) (snd ea) d with
+      | Ok (d', _) =>
+          if is_royalty_action (snd ea) then now (fst ea) :: d_accepted_changes self d' r
+          else d_accepted_changes self d' r
+      | Err => d_accepted_changes self d r
+      end
+  end.
+
+Definition anchored (d : deployed) : Prop := ver_ltb (d_ver d) (3, 1, 0) = false.
+
+Lemma cur_version_anchored : ver_ltb CUR_VERSION (3, 1, 0) = false.
+Proof. vm_compute. reflexivity. Qed.
+
+Lemma d_cadence self l : forall d,
+  anchored d ->
+  gaps_ok DAY_NS (royalty_updated_at (d_st d)) (d_accepted_changes self d l).
+Proof.
+  induction l as [|[e a] l IH]; intros d Hv; simpl; [exact I|].
+  destruct (dstep self e a d) as [[d' ms]|] eqn:H; [|apply IH; exact Hv].
+  apply dstep_ok in H.
+  destruct H as [(o & s' & -> & Hs & ->) | (-> & _ & _ & Hm)].
+  - simpl. apply step_exec in Hs. destruct Hs as [_ Hs].
+    destruct (exec_royalty _ _ _ _ _ _ Hs) as [(Hc & _ & Ht) | (m & new & -> & Hmm & Hu & _ & Ht)].
+    + rewrite Hc. rewrite <- Ht. apply (IH (with_state d s')). exact Hv.
+    + simpl. rewrite Hmm. simpl. split.
+      * apply update_royalty_ok in Hu. tauto.
+      * rewrite <- Ht. apply (IH (with_state d s')). exact Hv.
+  - simpl. apply migrate_ok in Hm.
+    destruct Hm as (_ & _ & Hver & _ & _ & _ & _ & _ & _ & _ & _ & _ & Hanchor).
+    unfold anchored in Hv. rewrite Hv in Hanchor. rewrite <- Hanchor.
+    apply IH. unfold anchored. rewrite Hver. exact cur_version_anchored.
+Qed.
+
+Lemma d_cadence_any_two self l d :
+  anchored d -> ForallOrdPairs (fun t1 t2 => t1 + DAY_NS <= t2) (d_accepted_changes self d l).
+Proof. intros Hv. exact (gaps_ok_pairs _ _ _ (d_cadence self l d Hv)). Qed.
+
+(* what `boot` of a recorded history yields: a fresh deployment records the workspace
+   version under the code's own name *)
+Definition fresh (ct : ctype) (admin : addr) (s : state) : deployed :=
+  mkDep ct admin (name_of ct) CUR_VERSION s.
+
+Lemma fresh_anchored ct admin s : anchored (fresh ct admin s).
+Proof. exact cur_version_anchored. Qed.
+
+Lemma d_cadence_from_creation self ct admin t b f m c s l :
+  instantiate ct t b f m c = Ok s ->
+  Forall (fun x => t + DAY_NS <= x) (d_accepted_changes self (fresh ct admin s) l).
+Proof.
+  intros H. destruct (share_ok_instantiate _ _ _ _ _ _ _ H) as (_ & Ht & _).
+  rewrite <- Ht. exact (gaps_ok_lower _ _ _ (d_cadence self l (fresh ct admin s) (fresh_anchored _ _ _))).
+Qed.
+
+Lemma d_count_inv_from_creation self ct admin t b f m c s l :
+  instantiate ct t b f m c = Ok s ->
+  token_count (d_st (drun self (fresh ct admin s) l)) = N.of_nat (length (tokens (d_st (drun self (fresh ct admin s) l)))) /\
+  NoDup (map fst (tokens (d_st (drun self (fresh ct admin s) l)))).
+Proof.
+  intros H. apply count_inv_instantiate in H. destruct H as [H1 H2].
+  exact (d_tokens_ok_run self l (fresh ct admin s) H1 H2).
 Qed.
 
 (* ================================================================== example data used by props/C09.v and props/C10.v *)
